@@ -30,7 +30,7 @@ ARRAYS = {}
 ARRAYS_RO = {}
 FPS = {}
 HELD = []
-MAX_HELD = 400
+MAX_HELD = 600
 DRIVER_ARRAYS = {}
 
 
@@ -145,9 +145,25 @@ def _site_from_tb(tb):
     return "%s:%s" % (f.filename.split("/funsor/", 1)[1], f.name), "%s:%d %s" % (f.filename, f.lineno, f.line)
 
 
+_LEAF_HELD = set()
+
+
+def _hold_leaves(e, seed):
+    """Hold every leaf Tensor of the program BEFORE it runs (hash-consing returns the shared object)."""
+    for s_ in lang.subterms(e):
+        if s_[0] in ("T", "G") and s_ not in _LEAF_HELD:
+            _LEAF_HELD.add(s_)
+            try:
+                t = lang.build(s_, seed, ARRAYS)
+                HELD.append((t, _snap(t), "leaf " + lang.code(s_)[:80]))
+            except Exception:
+                pass
+
+
 def check_term(e, seed):
     key = repr(e)
     done = 0
+    _hold_leaves(e, seed)
     # pass 1: writable shared arrays + fingerprints
     for name, fn in _routes(e, seed, ARRAYS):
         try:
@@ -375,7 +391,88 @@ def _d_array_ops(rep):
     return [Tensor(np.asarray(o)) for o in out if hasattr(o, "shape")]
 
 
+def _g_approximate(rep):
+    """A lazily built Approximate whose guide has inputs the model lacks (operands snapshotted before construction)."""
+    from collections import OrderedDict
+    import funsor
+    from funsor import ops
+    from funsor.domains import Bint, Real
+    from funsor.tensor import Tensor
+    from funsor.terms import Approximate, Variable
+
+    model = Tensor(_arr("apx_m", (2,), rep=rep), OrderedDict(i=Bint[2]))
+    guide = Tensor(_arr("apx_g", (2, 3), rep=rep), OrderedDict(i=Bint[2], j=Bint[3]))
+    with funsor.interpretations.lazy:
+        lm = model.exp()  # a lazy unary shares its argument's inputs dict
+        lg = guide.log()
+    yield [model, guide, lm, lg]
+    out = []
+    for interp in (funsor.interpretations.lazy, funsor.interpretations.reflect, funsor.interpretations.normalize):
+        with interp:
+            out.append(Approximate(ops.logaddexp, lm, lg, frozenset({Variable("i", Bint[2])})))
+            out.append(Approximate(ops.logaddexp, model, guide, frozenset({Variable("i", Bint[2])})))
+    return out
+
+
+def _g_gaussian_live_tensor(rep):
+    """Real substitution into a Gaussian while the caller holds a Tensor over the Gaussian's own white_vec."""
+    import numpy as np
+    from collections import OrderedDict
+    from funsor.domains import Bint, Real
+    from funsor.gaussian import Gaussian
+    from funsor.tensor import Tensor
+
+    wv = _arr("glt_wv", (2, 3), positive=False, rep=rep)
+    DRIVER_ARRAYS.setdefault(("glt_ps", (2, 3, 3), rep), _arr("glt_ps0", (2, 3, 3), rep=rep) + 2.0 * np.eye(3))
+    ps = DRIVER_ARRAYS[("glt_ps", (2, 3, 3), rep)]
+    g = Gaussian(wv, ps, OrderedDict(i=Bint[2], x=Real, y=Real, z=Real))
+    live = Tensor(g.white_vec, OrderedDict(i=Bint[2]))
+    live2 = Tensor(g.prec_sqrt, OrderedDict(i=Bint[2]))
+    val = Tensor(_arr("glt_v", (2,), rep=rep), OrderedDict(i=Bint[2]))
+    yield [g, live, live2, val]
+    return [g(x=val), g(y=val, z=val), g(x=val)(y=val), g(i=1), g(x="y", y="x")]
+
+
+def _g_lazy_align(rep):
+    """align() of lazy terms to a different order: the operand's own inputs must keep their order."""
+    from collections import OrderedDict
+    import funsor
+    from funsor.domains import Bint, Real
+    from funsor.tensor import Tensor
+    from funsor.terms import Variable
+
+    t = Tensor(_arr("la_t", (2, 3, 2), rep=rep), OrderedDict(i=Bint[2], j=Bint[3], k=Bint[2]))
+    with funsor.interpretations.lazy:
+        u = t.exp()
+        b = t * Variable("x", Real)
+    yield [t, u, b]
+    out = []
+    for interp in (funsor.interpretations.lazy, funsor.interpretations.reflect, funsor.interpretations.eager):
+        with interp:
+            out += [u.align(("k", "j", "i")), b.align(("x", "k", "i", "j")), u.align(("j",)), t.align(("k", "i", "j"))]
+    return out
+
+
+GEN_DRIVERS = {"approximate-lazy": _g_approximate, "gaussian-live-tensor": _g_gaussian_live_tensor, "lazy-align": _g_lazy_align}
+
+
+def _run_gen(fn, rep):
+    """Run a generator-style driver: hold (snapshot) the yielded operands first, then run the operations."""
+    g = fn(rep)
+    operands = next(g)
+    for o in operands:
+        HELD.append((o, _snap(o), "operand of " + fn.__name__))  # always held (not subject to MAX_HELD)
+    try:
+        next(g)
+    except StopIteration as stop:
+        return list(operands) + list(stop.value or [])
+    return list(operands)
+
+
 DRIVERS = [
+    ("approximate-lazy", lambda rep: _run_gen(_g_approximate, rep)),
+    ("gaussian-live-tensor", lambda rep: _run_gen(_g_gaussian_live_tensor, rep)),
+    ("lazy-align", lambda rep: _run_gen(_g_lazy_align, rep)),
     ("sample", _d_sample),
     ("array_ops", _d_array_ops),
     ("gaussian", _d_gaussian),
